@@ -10,17 +10,23 @@ from .past import Renderer
 
 import threading
 _RETRY_LOCK = threading.Lock()
+_RETRIES = {"tried": 0, "still": 0}
 
 
 def run_bin(args, stdin=b"", timeout=20, env=None, cwd=None, retry_if=None):
     """returns dict(rc, out, err, how) - how is 'exit', 'signal', 'panic' or 'timeout'.
     A deadline miss is never reported on the strength of one attempt on a busy machine: the run is repeated, one
-    at a time, with a deadline six times as long (at least 60 s) - unless retry_if(result) says the first attempt
+    at a time, with a deadline four times as long (at least 40 s) - unless retry_if(result) says the first attempt
     already shows the program itself is what runs long."""
     r = _run_bin(args, stdin, timeout, env, cwd)
     if r["how"] == "timeout" and (retry_if is None or retry_if(r)):
         with _RETRY_LOCK:
-            r2 = _run_bin(args, stdin, max(60, 6 * timeout), env, cwd)
+            # (three repeats out of three missed the long deadline too: it is not the machine, later misses stand)
+            if _RETRIES["tried"] >= 3 and _RETRIES["still"] == _RETRIES["tried"]:
+                return r
+            r2 = _run_bin(args, stdin, max(40, 4 * timeout), env, cwd)
+            _RETRIES["tried"] += 1
+            _RETRIES["still"] += r2["how"] == "timeout"
         r2["retried"] = True
         return r2
     return r
